@@ -683,6 +683,31 @@ pub fn run_coll(c: &CollCase) -> Outcome {
                 break;
             }
         }
+        // credentials that arrive as the keys of an ordered container (committee members): the collection the
+        // getter returns holds each once, in the container's order, the same on every call
+        if kind == CollKind::Credentials && model.len() >= 2 {
+            let mut committee = csl::Committee::new(&csl::UnitInterval::new(&csl::BigNum::from(2u64), &csl::BigNum::from(3u64)));
+            for id in &model {
+                committee.add_member(&e_cred(*id), 100 + *id as u32);
+            }
+            let k1 = committee.members_keys().to_bytes();
+            let k2 = committee.members_keys().to_bytes();
+            let mut want = model.clone();
+            want.sort_by(|a, b| e_cred(*a).cmp(&e_cred(*b)));
+            out.count("c16.derived_collections_checked", 1);
+            match read_ids(kind, &k1, &universe) {
+                Ok(ids) if ids == want && k1 == k2 => {}
+                Ok(ids) => {
+                    let class = if k1 != k2 { "derived_collection_differs_between_calls" } else if ids.len() != want.len() { "derived_collection_repeats_or_loses_elements" } else { "derived_collection_order_lost" };
+                    out.violate("C16.collection", &format!("{}/{:?}", class, kind), format!("{:?} op {}: committee members {:?} came back as {:?}", kind, i, want, ids));
+                    break;
+                }
+                Err(e) => {
+                    out.violate("C16.collection", &format!("unreadable/{:?}", kind), format!("{:?} op {}: {}", kind, i, e));
+                    break;
+                }
+            }
+        }
         sig = mix(sig, match op {
             CollOp::Add(_) => 1,
             CollOp::AddAlt(..) => 12,
